@@ -26,6 +26,10 @@ def generate_special_classes(spec: model.LSPModel, types: TypeData) -> None:
     for special_class in SPECIAL_CLASSES:
         for class_def in spec.structures + spec.typeAliases:
             if class_def.name == special_class:
+                if special_class == "InitializedParams" and class_def.properties:
+                    # Only the property-less form is an open dictionary, with
+                    # properties it is a regular record like any other structure.
+                    continue
                 generate_special_class(class_def, spec, types)
 
 
